@@ -288,7 +288,9 @@ def check_rows_match(row1: Row[Variable], row2: Row[Variable], bb: BB) -> None:
     types on different control-flow paths.
     """
     map1, map2 = {v.name: v for v in row1}, {v.name: v for v in row2}
-    for x in map1.keys() | map2.keys():
+    # Go through the variables in row order (not in the order of a set of names, which
+    # changes with the string hash seed), so the same variable is reported every time
+    for x in dict.fromkeys([*map1, *map2]):
         # If block signature lengths don't match but no undefined error was thrown, some
         # variables may be shadowing global variables.
         v1, v2 = map1[x], map2[x]
